@@ -12,7 +12,7 @@ open OFV
 
 /-- an element visited by the walker: kind code and nested elements -/
 inductive Tree where
-  | node (kind : String) (children : List Tree)
+  | node (kind : String) (bytes : Bytes) (children : List Tree)   -- `bytes`: the bytes the element occupies
 deriving Repr, Inhabited
 
 abbrev W := Except String
@@ -58,7 +58,7 @@ def walkOxm (bs : Bytes) : W (Tree × Nat) := do
       | some w => pure w
       | none => fail s!"oxm experimenter field {field}"
     if len ≠ 4 + (if hasMask then 2 * w else w) then fail s!"oxm experimenter field {field}: length {len}"
-    pure (.node s!"oxm {cls} {field} {if hasMask then 1 else 0}" [], 4 + len)
+    pure (.node s!"oxm {cls} {field} {if hasMask then 1 else 0}" (bs.take (4 + len)) [], 4 + len)
   else
     match oxmLegalWidth cls field with
     | none => fail s!"oxm: unknown field {cls}/{field}"
@@ -68,7 +68,7 @@ def walkOxm (bs : Bytes) : W (Tree × Nat) := do
       let ok := if isVar then (if hasMask then len % 2 = 0 ∧ len ≤ 2 * w else len ≤ w) ∧ 0 < len
                 else len = (if hasMask then 2 * w else w)
       if ¬ ok then fail s!"oxm {cls}/{field} mask={hasMask}: payload length {len}, width {w}"
-      pure (.node s!"oxm {cls} {field} {if hasMask then 1 else 0}" [], 4 + len)
+      pure (.node s!"oxm {cls} {field} {if hasMask then 1 else 0}" (bs.take (4 + len)) [], 4 + len)
 
 /-- consecutive OXM TLVs filling exactly `bs` -/
 def walkOxms : Nat → Bytes → W (List Tree)
@@ -91,7 +91,7 @@ def walkMatch (bs : Bytes) : W (Tree × Nat) := do
   if bs.length < tot then fail s!"match: length {len} (padded {tot}) exceeds the remaining {bs.length} bytes"
   let fields ← walkOxms (len + 1) (slice bs 4 (len - 4))
   zerosAt bs len (tot - len) "match"
-  pure (.node "match" fields, tot)
+  pure (.node "match" (bs.take tot) fields, tot)
 
 /-- sizes of the fixed-size Nicira actions -/
 def nxFixed : List (Nat × Nat) :=
@@ -114,7 +114,7 @@ def walkLearnSpecs : Nat → Bytes → W (List Tree)
         let size := 2 + (if srcImm then 2 * ((nbits + 15) / 16) else 6) + (if dst = 2 then 0 else 6)
         if bs.length < size then fail s!"learn spec needs {size} bytes, {bs.length} left"
         let rest ← walkLearnSpecs fuel (bs.drop size)
-        pure (.node s!"spec {if srcImm then 1 else 0} {dst}" [] :: rest)
+        pure (.node s!"spec {if srcImm then 1 else 0} {dst}" (bs.take size) [] :: rest)
 
 mutual
 /-- one action at the start of `bs`: (element, bytes consumed) -/
@@ -131,27 +131,27 @@ def walkAction : Nat → Bytes → W (Tree × Nat)
     | 0 => do
       if len ≠ 16 then fail s!"output action length {len}"
       zerosAt a 10 6 "output action"
-      pure (.node "act 0" [], len)
+      pure (.node "act 0" a [], len)
     | 11 | 12 | 16 | 18 | 24 | 27 => do
       if len ≠ 8 then fail s!"action type {ty} length {len}"
       zerosAt a 4 4 s!"action {ty}"
-      pure (.node s!"act {ty}" [], len)
+      pure (.node s!"act {ty}" a [], len)
     | 15 | 23 => do
       if len ≠ 8 then fail s!"action type {ty} length {len}"
       zerosAt a 5 3 s!"action {ty}"
-      pure (.node s!"act {ty}" [], len)
+      pure (.node s!"act {ty}" a [], len)
     | 17 | 19 | 20 | 26 => do
       if len ≠ 8 then fail s!"action type {ty} length {len}"
       zerosAt a 6 2 s!"action {ty}"
-      pure (.node s!"act {ty}" [], len)
+      pure (.node s!"act {ty}" a [], len)
     | 21 | 22 => do
       if len ≠ 8 then fail s!"action type {ty} length {len}"
-      pure (.node s!"act {ty}" [], len)
+      pure (.node s!"act {ty}" a [], len)
     | 25 => do
       let (f, n) ← walkOxm (a.drop 4)
       if round8 (4 + n) ≠ len then fail s!"set-field: oxm of {n} bytes in an action of {len}"
       zerosAt a (4 + n) (len - 4 - n) "set-field"
-      pure (.node "act 25" [f], len)
+      pure (.node "act 25" a [f], len)
     | 65535 => do
       if len < 16 then fail s!"experimenter action length {len}"
       let vendor := u32At a 4
@@ -160,31 +160,31 @@ def walkAction : Nat → Bytes → W (Tree × Nat)
       match nxFixed.lookup sub with
       | some sz =>
         if len ≠ sz then fail s!"nicira action {sub}: length {len}, expected {sz}"
-        else pure (.node s!"nx {sub}" [], len)
+        else pure (.node s!"nx {sub}" a [], len)
       | none =>
         match sub with
-        | 8 => pure (.node "nx 8" [], len)
+        | 8 => pure (.node "nx 8" a [], len)
         | 16 => do
           if len < 32 then fail s!"learn action length {len}"
           let specs ← walkLearnSpecs (len + 1) (a.drop 32)
-          pure (.node "nx 16" specs, len)
+          pure (.node "nx 16" a specs, len)
         | 21 => do
           let n := u16At a 10
           zerosAt a 12 4 "dec_ttl_cnt_ids"
           if round8 (16 + 2 * n) ≠ len then fail s!"dec_ttl_cnt_ids: {n} ids in an action of {len} bytes"
           zerosAt a (16 + 2 * n) (len - 16 - 2 * n) "dec_ttl_cnt_ids"
-          pure (.node "nx 21" [], len)
-        | 32 => if len < 24 then fail "output_reg2 length" else pure (.node "nx 32" [], len)
+          pure (.node "nx 21" a [], len)
+        | 32 => if len < 24 then fail "output_reg2 length" else pure (.node "nx 32" a [], len)
         | 33 => do
           let (f, n) ← walkOxm (a.drop 10)
           if round8 (10 + n) ≠ len then fail s!"reg_load2: oxm of {n} bytes in an action of {len}"
           zerosAt a (10 + n) (len - 10 - n) "reg_load2"
-          pure (.node "nx 33" [f], len)
+          pure (.node "nx 33" a [f], len)
         | 35 => do
           if len < 24 then fail s!"ct action length {len}"
           zerosAt a 19 3 "ct"
           let sub ← walkActions fuel (a.drop 24)
-          pure (.node "nx 35" sub, len)
+          pure (.node "nx 35" a sub, len)
         | 36 => do
           zerosAt a 10 2 "nat"
           let present := u16At a 14
@@ -194,7 +194,7 @@ def walkAction : Nat → Bytes → W (Tree × Nat)
             + (if present / 16 % 2 = 1 then 2 else 0) + (if present / 32 % 2 = 1 then 2 else 0)
           if round8 sz ≠ len then fail s!"nat: range_present {present} needs {round8 sz} bytes, length is {len}"
           zerosAt a sz (len - sz) "nat"
-          pure (.node "nx 36" [], len)
+          pure (.node "nx 36" a [], len)
         | _ => fail s!"nicira action subtype {sub}"
     | _ => fail s!"action type {ty}"
 
@@ -222,19 +222,19 @@ def walkInstrs : Nat → Bytes → W (List Tree)
         | 1 => do
           if len ≠ 8 then fail "goto-table length"
           zerosAt a 5 3 "goto-table"
-          pure (Tree.node "ins 1" [])
+          pure (Tree.node "ins 1" a [])
         | 2 => do
           if len ≠ 24 then fail "write-metadata length"
           zerosAt a 4 4 "write-metadata"
-          pure (Tree.node "ins 2" [])
+          pure (Tree.node "ins 2" a [])
         | 3 | 4 | 5 => do
           zerosAt a 4 4 s!"instruction {ty}"
           if ty = 5 ∧ len ≠ 8 then fail "clear-actions carries actions"
           let acts ← walkActions (len + 1) (a.drop 8)
-          pure (Tree.node s!"ins {ty}" acts)
+          pure (Tree.node s!"ins {ty}" a acts)
         | 6 => do
           if len ≠ 8 then fail "meter length"
-          pure (Tree.node "ins 6" [])
+          pure (Tree.node "ins 6" a [])
         | _ => fail s!"instruction type {ty}"
       let rest ← walkInstrs fuel (bs.drop len)
       pure (t :: rest)
@@ -251,7 +251,7 @@ def walkBuckets : Nat → Bytes → W (List Tree)
       zerosAt a 12 4 "bucket"
       let acts ← walkActions (len + 1) (a.drop 16)
       let rest ← walkBuckets fuel (bs.drop len)
-      pure (.node "bucket" acts :: rest)
+      pure (.node "bucket" a acts :: rest)
 
 def walkHelloElems : Nat → Bytes → W (List Tree)
   | 0, _ => fail "hello: out of fuel"
@@ -266,7 +266,7 @@ def walkHelloElems : Nat → Bytes → W (List Tree)
       if ty = 1 ∧ (len - 4) % 4 ≠ 0 then fail s!"version bitmap element length {len}"
       zerosAt bs len (tot - len) "hello element"
       let rest ← walkHelloElems fuel (bs.drop tot)
-      pure (.node s!"helloelem {ty}" [] :: rest)
+      pure (.node s!"helloelem {ty}" (bs.take tot) [] :: rest)
 
 def walkTlvMaps : Nat → Bytes → W (List Tree)
   | 0, _ => fail "tlv maps: out of fuel"
@@ -275,7 +275,7 @@ def walkTlvMaps : Nat → Bytes → W (List Tree)
       if bs.length < 8 then fail "tlv map: truncated"
       zerosAt bs 6 2 "tlv map"
       let rest ← walkTlvMaps fuel (bs.drop 8)
-      pure (.node "tlvmap" [] :: rest)
+      pure (.node "tlvmap" (bs.take 8) [] :: rest)
 
 def walkProps : Nat → Bytes → W (List Tree)
   | 0, _ => fail "properties: out of fuel"
@@ -290,7 +290,7 @@ def walkProps : Nat → Bytes → W (List Tree)
       if ty = 0xffff ∧ len < 12 then fail "experimenter property shorter than its header"
       zerosAt bs len (tot - len) "bundle property"
       let rest ← walkProps fuel (bs.drop tot)
-      pure (.node s!"prop {ty}" [] :: rest)
+      pure (.node s!"prop {ty}" (bs.take tot) [] :: rest)
 
 /-- a whole message: header, fixed part by type, nested lists by declared lengths; must end exactly at the end -/
 def walkMsg : Nat → Bytes → W Tree
@@ -306,17 +306,17 @@ def walkMsg : Nat → Bytes → W Tree
     match ty with
     | 0 => do
       let es ← walkHelloElems (len + 1) body
-      pure (.node "msg 0" es)
-    | 2 | 3 => pure (.node s!"msg {ty}" [])
-    | 5 | 7 | 20 => if body.isEmpty then pure (.node s!"msg {ty}" []) else fail s!"message type {ty} carries a body"
-    | 9 => if body.length = 4 then pure (.node "msg 9" []) else fail "set-config body"
+      pure (.node "msg 0" bs es)
+    | 2 | 3 => pure (.node s!"msg {ty}" bs [])
+    | 5 | 7 | 20 => if body.isEmpty then pure (.node s!"msg {ty}" bs []) else fail s!"message type {ty} carries a body"
+    | 9 => if body.length = 4 then pure (.node "msg 9" bs []) else fail "set-config body"
     | 13 => do
       if body.length < 16 then fail "packet-out: truncated"
       let alen := u16At body 8
       zerosAt body 10 6 "packet-out"
       if body.length < 16 + alen then fail s!"packet-out actions_len {alen} exceeds the message"
       let acts ← walkActions (len + 1) (slice body 16 alen)
-      pure (.node "msg 13" acts)
+      pure (.node "msg 13" bs acts)
     | 14 => do
       if body.length < 40 then fail "flow-mod: truncated"
       zerosAt body 38 2 "flow-mod"
@@ -324,37 +324,37 @@ def walkMsg : Nat → Bytes → W Tree
       if cmd > 4 then fail s!"flow-mod command {cmd}"
       let (m, n) ← walkMatch (body.drop 40)
       let ins ← walkInstrs (len + 1) (body.drop (40 + n))
-      pure (.node "msg 14" (m :: ins))
+      pure (.node "msg 14" bs (m :: ins))
     | 15 => do
       if body.length < 8 then fail "group-mod: truncated"
       zerosAt body 3 1 "group-mod"
       let bk ← walkBuckets (len + 1) (body.drop 8)
-      pure (.node "msg 15" bk)
+      pure (.node "msg 15" bs bk)
     | 16 => do
       if body.length ≠ 32 then fail s!"port-mod body of {body.length} bytes"
       zerosAt body 4 4 "port-mod"
       zerosAt body 14 2 "port-mod"
       zerosAt body 28 4 "port-mod"
-      pure (.node "msg 16" [])
+      pure (.node "msg 16" bs [])
     | 18 => do
       if body.length < 8 then fail "multipart request: truncated"
       let mt := u16At body 0
       zerosAt body 4 4 "multipart request"
       let b := body.drop 8
       match mt with
-      | 0 | 3 | 7 | 8 | 11 | 13 => if b.isEmpty then pure (.node "msg 18" [.node s!"mp {mt}" []]) else fail s!"multipart {mt} carries a body"
+      | 0 | 3 | 7 | 8 | 11 | 13 => if b.isEmpty then pure (.node "msg 18" bs [.node s!"mp {mt}" b []]) else fail s!"multipart {mt} carries a body"
       | 1 | 2 => do
         if b.length < 32 then fail "flow/aggregate stats request: truncated"
         zerosAt b 1 3 "stats request"
         zerosAt b 12 4 "stats request"
         let (m, n) ← walkMatch (b.drop 32)
         if 32 + n ≠ b.length then fail "stats request: trailing bytes after the match"
-        pure (.node "msg 18" [.node s!"mp {mt}" [m]])
+        pure (.node "msg 18" bs [.node s!"mp {mt}" b [m]])
       | 4 => do
         if b.length ≠ 8 then fail "port stats request body"
         zerosAt b 4 4 "port stats request"
-        pure (.node "msg 18" [.node "mp 4" []])
-      | 5 | 6 | 9 | 10 => if b.length = 8 then pure (.node "msg 18" [.node s!"mp {mt}" []]) else fail s!"multipart {mt} body"
+        pure (.node "msg 18" bs [.node "mp 4" b []])
+      | 5 | 6 | 9 | 10 => if b.length = 8 then pure (.node "msg 18" bs [.node s!"mp {mt}" b []]) else fail s!"multipart {mt} body"
       | _ => fail s!"multipart type {mt}"
     | 4 => do
       if body.length < 8 then fail "experimenter: truncated"
@@ -366,13 +366,13 @@ def walkMsg : Nat → Bytes → W Tree
         | 20 => do
           if d.length ≠ 8 then fail "set-controller-id body"
           zerosAt d 0 6 "set-controller-id"
-          pure (.node "msg 4" [.node "nxt 20" []])
+          pure (.node "msg 4" bs [.node "nxt 20" d []])
         | 24 => do
           if d.length < 8 then fail "tlv-table-mod: truncated"
           zerosAt d 2 6 "tlv-table-mod"
           let maps ← walkTlvMaps (len + 1) (d.drop 8)
-          pure (.node "msg 4" [.node "nxt 24" maps])
-        | 25 => if d.isEmpty then pure (.node "msg 4" [.node "nxt 25" []]) else fail "tlv-table-request carries a body"
+          pure (.node "msg 4" bs [.node "nxt 24" d maps])
+        | 25 => if d.isEmpty then pure (.node "msg 4" bs [.node "nxt 25" d []]) else fail "tlv-table-request carries a body"
         | _ => fail s!"nicira message type {et}"
       else if exp = 0x4f4e4600 then
         match et with
@@ -381,7 +381,7 @@ def walkMsg : Nat → Bytes → W Tree
           let bt := u16At d 4
           if bt > 7 then fail s!"bundle control type {bt}"
           let ps ← walkProps (len + 1) (d.drop 8)
-          pure (.node "msg 4" [.node "onf 2300" ps])
+          pure (.node "msg 4" bs [.node "onf 2300" d ps])
         | 2301 => do
           if d.length < 16 then fail "bundle-add: truncated"
           zerosAt d 4 2 "bundle-add"
@@ -389,14 +389,18 @@ def walkMsg : Nat → Bytes → W Tree
           if ilen < 8 ∨ d.length < 8 + ilen then fail s!"bundle-add: embedded message length {ilen}"
           let inner ← walkMsg fuel (slice d 8 ilen)
           let ps ← walkProps (len + 1) (d.drop (8 + round8 ilen))
-          pure (.node "msg 4" [.node "onf 2301" (inner :: ps)])
+          pure (.node "msg 4" bs [.node "onf 2301" d (inner :: ps)])
         | _ => fail s!"onf message type {et}"
       else fail s!"experimenter {exp}"
     | _ => fail s!"message type {ty} is not controller-originated / not supported"
 
 /-- pre-order list of the kinds visited -/
 partial def Tree.flat : Tree → List String
-  | .node k cs => k :: (cs.map Tree.flat).flatten
+  | .node k _ cs => k :: (cs.map Tree.flat).flatten
+
+/-- pre-order list of (kind, bytes of the element) -/
+partial def Tree.flatBytes : Tree → List (String × Bytes)
+  | .node k b cs => (k, b) :: (cs.map Tree.flatBytes).flatten
 
 def walk (bs : Bytes) : W Tree := walkMsg (bs.length + 8) bs
 
